@@ -867,6 +867,18 @@ def gen_group_mix_scenario(rng: random.Random) -> dict:
         sims.append({"type": "event-based", "group": list(g[:-1]), "init_ev": None})      # observer one level up
         connects.append(conn(rng.randrange(k), n))
         n += 1
+    if rng.random() < 0.4:
+        # a consumer in a SIBLING group of the loop's group (distinct groups are distinct: it shares no sub-time with the loop and
+        # must see the loop member's LAST sub-step of a time, whatever the connection carries: a measurement or the events)
+        sib = list(g[:-1]) + [1]
+        typ = rng.choice(["time-based", "time-based", "event-based", "hybrid"])
+        sims.append({"type": typ, "group": sib, "init_ev": None})
+        src = rng.randrange(k)
+        if typ == "event-based" or (typ == "hybrid" and rng.random() < 0.5):
+            connects.append(conn(src, n))
+        else:
+            connects.append(conn(src, n, sattr=2, dattr=0))
+        n += 1
     ml = rng.choice([3, 4, 100])
     sc = {"sims": sims, "connects": connects, "until": rng.randint(3, 5), "max_loop": ml,
           "lazy": rng.random() < 0.5, "cache": rng.random() < 0.5, "beh_seed": rng.randrange(10 ** 9),
